@@ -72,6 +72,15 @@ static int64_t ext_many (int64_t a, int64_t b, int64_t c, int64_t d, int64_t e, 
                     + 7 * (uint64_t) g + 9 * (uint64_t) i);
 }
 }
+typedef int64_t (*cbf_t) (int64_t, void *);
+extern "C" {
+static int64_t ext_cb (void *fn, int64_t depth, void *buf) {
+  log_native ("ext_cb", {{MIR_T_I64, VI (depth)}});  // addresses are engine specific and are not logged
+  int64_t r = ((cbf_t) fn) (depth, buf);
+  log_native ("ext_cb_ret", {{MIR_T_I64, VI (r)}});
+  return (int64_t) ((uint64_t) r * 5 + 1);
+}
+}
 static inline void install_ext_models (Evaluator &ev) {
   auto protos = ext_protos ();
   for (auto &p : protos) {
@@ -79,6 +88,31 @@ static inline void install_ext_models (Evaluator &ev) {
     for (auto &a : p.args) e.arg_types.push_back (a.type);
     e.res_types = p.res;
     std::string n = p.name.substr (2);
+    if (n == "ext_cb") {
+      Evaluator *evp = &ev;
+      e.arg_types = {MIR_T_P, MIR_T_I64, MIR_T_P};
+      e.fn = [evp] (const std::vector<Val> &a, std::vector<Val> &r) {
+        // model of the native: it logs, calls the function whose address it was given, logs, returns 5*r+1
+        uint64_t v = (uint64_t) a[0].i;
+        if ((v >> 32) != 0xF000 || (v & 0xffffffff) >= evp->func_names.size ()) throw Undefined{"callback through a non-function value"};
+        evp->log.pop_back ();  // call_func logged (fn, depth, buf); the native logs depth only
+        CallRec rec;
+        rec.name = "ext_cb";
+        rec.types = {MIR_T_I64};
+        rec.args = {VI (a[1].i)};
+        evp->log.push_back (rec);
+        std::vector<Val> res;
+        evp->call_func (evp->func_names[v & 0xffffffff], {VI (a[1].i), a[2]}, res);
+        CallRec rec2;
+        rec2.name = "ext_cb_ret";
+        rec2.types = {MIR_T_I64};
+        rec2.args = {res[0]};
+        evp->log.push_back (rec2);
+        r = {VI ((int64_t) ((uint64_t) res[0].i * 5 + 1))};
+      };
+      ev.exts[n] = e;
+      continue;
+    }
     if (n == "ext_ii")
       e.fn = [] (const std::vector<Val> &a, std::vector<Val> &r) { r = {VI ((int64_t) ((uint64_t) a[0].i * 3 + ((uint64_t) a[1].i ^ 0x55)))}; };
     else if (n == "ext_d")
@@ -140,6 +174,9 @@ static inline std::string run_reference (const Prog &p, const Input &in, Obs &ob
 }
 
 // ------------------------------------------------------------------ real engines
+static int g_lazy_level = 2;          // optimisation level used for the lazy interfaces
+static int g_min_depth = 0;           // smallest call depth given to entry (0 = no calls are executed)
+static bool g_check_addr_stability = false;
 static jmp_buf g_err_jb;
 static char g_err_msg[1024];
 static int g_err_code;
@@ -172,6 +209,7 @@ static inline void load_ext_natives (MIR_context_t ctx) {
   MIR_load_external (ctx, "ext_mix", (void *) ext_mix);
   MIR_load_external (ctx, "ext_ld", (void *) ext_ld);
   MIR_load_external (ctx, "ext_many", (void *) ext_many);
+  MIR_load_external (ctx, "ext_cb", (void *) ext_cb);
 }
 
 // Runs every input in one fresh context. Returns "" or an error description (library error callback).
@@ -199,7 +237,7 @@ static inline std::string run_engine_l (const Loader &loader, Engine e, const st
   if (e >= E_GEN0) {
     MIR_gen_init (ctx);
     gen_inited = true;
-    int lvl = e == E_GEN0 ? 0 : e == E_GEN1 ? 1 : e == E_GEN3 ? 3 : 2;
+    int lvl = e == E_GEN0 ? 0 : e == E_GEN1 ? 1 : e == E_GEN3 ? 3 : (e == E_LAZY || e == E_LAZYBB) ? g_lazy_level : 2;
     MIR_gen_set_optimize_level (ctx, (unsigned) lvl);
   }
   switch (e) {
@@ -211,6 +249,12 @@ static inline std::string run_engine_l (const Loader &loader, Engine e, const st
   }
   MIR_item_t entry = find_item (ctx, "entry");
   if (!entry) return "entry not found";
+  // public addresses of all functions: they must stay valid and unchanged across the switch from stub to code
+  std::vector<std::pair<MIR_item_t, void *>> addrs;
+  if (g_check_addr_stability)
+    for (MIR_module_t m = DLIST_HEAD (MIR_module_t, *MIR_get_module_list (ctx)); m != NULL; m = DLIST_NEXT (MIR_module_t, m))
+      for (MIR_item_t it = DLIST_HEAD (MIR_item_t, m->items); it != NULL; it = DLIST_NEXT (MIR_item_t, it))
+        if (it->item_type == MIR_func_item) addrs.push_back ({it, it->addr});
   uint8_t *buf = the_buffer ();
   for (auto &in : ins) {
     memcpy (buf, in.buf, MM_BUF_SIZE);
@@ -243,6 +287,8 @@ static inline std::string run_engine_l (const Loader &loader, Engine e, const st
     o.log = g_native_log;
     o.buf.assign (buf, buf + MM_BUF_SIZE);
     out.push_back (o);
+    for (auto &pa : addrs)
+      if (pa.first->addr != pa.second) return strfmt ("public address of function %s changed from %p to %p", pa.first->u.func->name, pa.second, pa.first->addr);
   }
   if (gen_inited) MIR_gen_finish (ctx);
   MIR_finish (ctx);
@@ -252,7 +298,7 @@ static inline std::string run_engine_l (const Loader &loader, Engine e, const st
 // ------------------------------------------------------------------ inputs
 static inline Input gen_input (CS &cs) {
   Input in;
-  in.depth = (int64_t) cs.range (0, 2);
+  in.depth = (int64_t) cs.range (g_min_depth, 2);
   in.a0 = pick_int (cs);
   in.a1 = pick_int (cs);
   in.x0 = pick_d (cs, false);
